@@ -53,7 +53,8 @@ class BaseInterval(ABC):
         result : ndarray
             The transformed values.
         """
-        vmin, vmax = self.get_limits(values)
+        # plain floats: NumPy integer scalars combine in their own fixed-width dtype (vmax - vmin wraps around)
+        vmin, vmax = (float(v) for v in self.get_limits(values))
 
         # convert non-float input first: fixed-width integers wrap around in `values - vmin`
         values = np.asarray(values)
@@ -84,7 +85,7 @@ class BaseInterval(ABC):
         result : ndarray
             The transformed values.
         """
-        vmin, vmax = self.get_limits(values)
+        vmin, vmax = (float(v) for v in self.get_limits(values))
 
         values = np.multiply(values, vmax - vmin)
         np.add(values, vmin, out=values)
@@ -143,7 +144,8 @@ class CenteredInterval(BaseInterval):
 
     def get_limits(self, values: NDArray) -> tuple[float, float]:
         if self.half_range is not None:
-            return self.vcenter - self.half_range, self.vcenter + self.half_range
+            vcenter, half_range = float(self.vcenter), float(self.half_range)
+            return vcenter - half_range, vcenter + half_range
 
         values = np.asarray(values).ravel()
         values = values[np.isfinite(values)]
